@@ -27,14 +27,15 @@ def case_seed(seed, prop, k):
 
 
 def load_known(path):
+    """finding: property=<id> key=<check>[:<substring>] <text>   (key may be double-quoted to contain spaces)"""
+    import re
     out = []
     if os.path.exists(path):
         for line in open(path):
             line = line.strip()
-            if line.startswith("finding:"):
-                parts = dict(p.split("=", 1) for p in line.split()[1:3] if "=" in p)
-                text = line.split(" ", 3)[3] if len(line.split(" ", 3)) > 3 else ""
-                out.append({"property": parts.get("property"), "key": parts.get("key"), "text": text})
+            m = re.match(r'^finding:\s+property=(\S+)\s+key=(?:"([^"]*)"|(\S+))\s*(.*)$', line)
+            if m:
+                out.append({"property": m.group(1), "key": m.group(2) if m.group(2) is not None else m.group(3), "text": m.group(4)})
     return out
 
 
